@@ -16,6 +16,13 @@ Two parts, one evidence file (LEVEL = model_checking).
                        without a current database / schema, row counts around DuckDB's vector size and one row more
                        than an Arrow record batch holds (10**6 + 1)
       login groups     database+schema / database only / none / lower case / new names; shared, isolated, path-backed
+      same-text groups the character-identical query text answered in different contexts of ONE server lifetime:
+                       before and after CREATE OR REPLACE TABLE changes the column type (every pair of the 12 type
+                       families, both directions), after ALTER TABLE ADD / DROP / RENAME COLUMN, another column count,
+                       DROP + CREATE, a replaced view, a session variable of another type; from three sessions of the
+                       shared instance in different schemas / databases holding same-named tables of other types and
+                       column counts, and after USE in one session; from the shared, an isolated and a path-backed
+                       instance (several connections per stream, each with its in-process twin)
     Oracle (per statement, comparison functions in mc/ref/c17_model.py):
       C17.no_500       no response of the server has status >= 500
       C17.outcome      both sides succeed or both raise
@@ -37,6 +44,10 @@ Two parts, one evidence file (LEVEL = model_checking).
     module-level state: shared_fs, sessions), then every
     enabled operation is applied - operations the model predicts to change the state each on their own replay,
     the others one after another on the live state, guarded by the ground-truth digest.
+    The read statements are the same text for every token while what a token writes differs per token in value and
+    type (MARK.WHO is a number, a text or a date; $V a number, a text or a fraction), and around every state-changing
+    operation every token sends the read texts before and after it on the same live server: the identical text is
+    answered on both sides of every change within one server lifetime.
       C17.s.login         a login succeeds and yields a session with database DB1, schema S1 and no variables
       C17.s.answer        the connector sees the rows / the ProgrammingError 2003/42S02 / the success the model expects
       C17.s.context       after every operation every token's database / schema / variables (fakesnow's session object
@@ -648,10 +659,152 @@ def rows_stream(tier):
     for n in ROWCOUNTS_QUICK if tier == "quick" else ROWCOUNTS_THOROUGH:
         out.append(S(f"rows[{n}]", f"select range as I, range::varchar as S from range({n}) order by I", cls="stmt=n_rows", vclass="one_arrow_batch"))
     n = ROWCOUNT_MULTI_BATCH
-    out.append(S(f"rows[{n}]", f"select range as I from range({n}) order by I", cls="stmt=n_rows", vclass="more_than_one_arrow_batch"))
+    if tier != "quick":
+        out.append(S(f"rows[{n}]", f"select range as I from range({n}) order by I", cls="stmt=n_rows", vclass="more_than_one_arrow_batch"))
     out.append(S(f"rows_with_timestamp[{n}]", f"select range as I, '2020-01-01 00:00:00.5'::timestamp_ntz as T from range({n}) order by I",
                  cls="stmt=n_rows", vclass="more_than_one_arrow_batch"))
     return out
+
+
+# ---- the character-identical query text in different contexts of ONE server lifetime ----------------------------------
+# The result type of a statement text is not a function of the text: it depends on the catalog at execution time, on
+# the session's current database / schema, on its variables and on the instance the session lives in.  Everything a
+# server keeps per statement text (descriptions, arrow metadata, plans) is therefore only visible when the identical
+# text is answered twice, with different result types, without a server restart in between.
+
+# one representative per type family (c01_model family), written as the column type
+RETYPE_TYPES = ["BOOLEAN", "NUMBER(38,0)", "NUMBER(10,2)", "NUMBER(38,37)", "FLOAT", "VARCHAR", "DATE", "TIME",
+                "TIMESTAMP_NTZ", "TIMESTAMP_TZ", "BINARY", "VARIANT"]
+SAME_TEXT_QUERIES = [
+    ("named_columns", "select ID, V from R order by ID"),
+    ("star", "select * from R order by ID"),
+    ("one_row", "select V from R where ID = 1"),
+]
+
+
+def _retype_version(type_sql, tag, tier="thorough"):
+    """CREATE OR REPLACE TABLE R (ID, V <type>) + (value, NULL, value) + the fixed query texts."""
+    ts = M1.TYPE_BY_NAME[type_sql]
+    keep = M1.QUICK_SHAPES[ts["family"]]
+    vals = [(k, v) for k, v in M1.values_for(ts) if k in keep and k != "json_null" and M1.allowed(ts, "lit", k, v)][:2]
+    rows = [(1, vals[0][1]), (2, None), (3, vals[-1][1])]
+    sql, _ = M1.build_insert(ts, "R", rows, "lit")
+    cls = "stmt=same_text_after_retype"
+    out = [S(f"replace_table[{tag}]", f"create or replace table R (ID int, V {type_sql})", cls=cls + ",ddl"),
+           S(f"insert[{tag}]", sql, cls=cls + ",insert")]
+    queries = SAME_TEXT_QUERIES[:2] if tier == "quick" else SAME_TEXT_QUERIES
+    out += [S(f"{ql}[{tag}]", q, cls=cls + ",select") for ql, q in queries]
+    return out
+
+
+def retype_stream(a, b, tier):
+    """a, b, a: the pair of type families is crossed in both directions between executions of the identical texts."""
+    return _retype_version(a, f"->{a}", tier) + _retype_version(b, f"{a}->{b}", tier) + _retype_version(a, f"{b}->{a}", tier)
+
+
+RETYPE_PAIRS = [(a, b) for i, a in enumerate(RETYPE_TYPES) for b in RETYPE_TYPES[i + 1:]]  # every unordered pair
+
+_Q_STAR, _Q_NAMED = "select * from R order by ID", "select ID, V from R order by ID"
+
+
+def _q(tag, cls="stmt=same_text_after_reshape,select"):
+    return [S(f"star[{tag}]", _Q_STAR, cls=cls), S(f"named_columns[{tag}]", _Q_NAMED, cls=cls)]
+
+
+K_RESHAPE = (
+    [S("create_table", "create or replace table R (ID int, V number(10,2))", cls="stmt=same_text_after_reshape,ddl"),
+     S("insert", "insert into R values (1, 12.34), (2, NULL), (3, 56.78)", cls="stmt=same_text_after_reshape,dml")]
+    + _q("2 columns")
+    + [S("alter_add_column", "alter table R add column W varchar", cls="stmt=same_text_after_reshape,ddl"),
+       S("update", "update R set W = 'x' where ID <> 2", cls="stmt=same_text_after_reshape,dml")]
+    + _q("after ADD COLUMN")
+    + [S("alter_drop_column", "alter table R drop column V", cls="stmt=same_text_after_reshape,ddl"),
+       S("star[after DROP COLUMN]", _Q_STAR, cls="stmt=same_text_after_reshape,select"),
+       S("alter_rename_column", "alter table R rename column W to V", cls="stmt=same_text_after_reshape,ddl")]
+    + _q("after RENAME COLUMN: V is text now")
+    + [S("replace_table_4_columns", "create or replace table R (ID int, V date, W varchar, X float)", cls="stmt=same_text_after_reshape,ddl"),
+       S("insert_4_columns", "insert into R values (1, '2020-01-02', 'a', 1.5), (2, NULL, NULL, NULL)", cls="stmt=same_text_after_reshape,dml")]
+    + _q("4 columns")
+    + [S("drop_table", "drop table R", cls="stmt=same_text_after_reshape,ddl"),
+       S("star[dropped]", _Q_STAR, cls="stmt=same_text_after_reshape,select"),
+       S("create_table_1_column", "create table R (ID timestamp_ntz)", cls="stmt=same_text_after_reshape,ddl"),
+       S("insert_1_column", "insert into R values ('1969-12-31 23:59:59.5'), (NULL)", cls="stmt=same_text_after_reshape,dml"),
+       S("star[1 column]", _Q_STAR, cls="stmt=same_text_after_reshape,select"),
+       S("named_columns[V missing]", _Q_NAMED, cls="stmt=same_text_after_reshape,select"),
+       # views: the same text over a replaced view
+       S("create_base", "create or replace table B (ID int, A number(10,2), D date, T varchar)", cls="stmt=same_text_after_reshape,ddl"),
+       S("insert_base", "insert into B values (1, 1.25, '2020-01-02', 't'), (2, NULL, NULL, NULL)", cls="stmt=same_text_after_reshape,dml"),
+       S("create_view", "create or replace view VW as select ID, A as V from B", cls="stmt=same_text_after_reshape,ddl"),
+       S("view[number]", "select * from VW order by ID", cls="stmt=same_text_after_reshape,select"),
+       S("replace_view", "create or replace view VW as select ID, D as V, T from B", cls="stmt=same_text_after_reshape,ddl"),
+       S("view[date, 3 columns]", "select * from VW order by ID", cls="stmt=same_text_after_reshape,select"),
+       S("replace_view", "create or replace view VW as select T as V from B", cls="stmt=same_text_after_reshape,ddl"),
+       S("view[text, 1 column]", "select * from VW order by 1", cls="stmt=same_text_after_reshape,select"),
+       # session variables: the same client text, another value type
+       S("set_number", "set X = 1", cls="stmt=same_text_after_reshape,set"),
+       S("var[number]", "select $X as X", cls="stmt=same_text_after_reshape,select"),
+       S("set_text", "set X = 'a'", cls="stmt=same_text_after_reshape,set"),
+       S("var[text]", "select $X as X", cls="stmt=same_text_after_reshape,select"),
+       S("set_fraction", "set X = 1.25", cls="stmt=same_text_after_reshape,set"),
+       S("var[fraction]", "select $X as X", cls="stmt=same_text_after_reshape,select"),
+       # DML status rows and metadata statements repeated around the changes
+       S("describe[1 column]", "describe table R", cls="stmt=same_text_after_reshape,select"),
+       S("replace_table_again", "create or replace table R (ID int, V binary)", cls="stmt=same_text_after_reshape,ddl"),
+       S("describe[2 columns]", "describe table R", cls="stmt=same_text_after_reshape,select")]
+    + _q("binary")
+)
+
+# several sessions of one instance, in different schemas / databases, holding same-named tables of different types and
+# column counts; (connection index, ...)
+CONTEXT_CONNS = [("shared", "DB1", "S1"), ("shared", "DB1", "S2"), ("shared", "DB2", "S1")]
+INSTANCE_CONNS = [("shared", "DB1", "S1"), ("isolated", "DB1", "S1"), ("path", "DB1", "S1"), ("shared", "DB1", "S1")]
+_SAME_DEFS = [
+    ("(ID int, V number(10,2))", "(1, 12.34), (2, NULL)"),
+    ("(ID int, V date, W varchar)", "(1, '2020-01-02', 'w'), (2, NULL, NULL)"),
+    ("(V float)", "(1.5), (NULL)"),
+]
+_SAME_QUERIES = [
+    ("star", "select * from SAME order by 1"),
+    ("column_v", "select V from SAME order by 1"),
+    ("aggregate", "select count(*) as N, max(V) as M from SAME"),
+]
+
+
+def C(c, st):
+    return dict(st, c=c)
+
+
+def _same_setup(cls, writers):
+    out = []
+    for c, (cols, vals) in zip(writers, _SAME_DEFS):
+        out.append(C(c, S(f"create_same[conn {c}]", f"create table SAME {cols}", cls=cls + ",ddl")))
+        out.append(C(c, S(f"insert_same[conn {c}]", f"insert into SAME values {vals}", cls=cls + ",dml")))
+    return out
+
+
+def _same_rounds(cls, order):
+    out = []
+    for ql, q in _SAME_QUERIES:
+        for c in order:
+            out.append(C(c, S(f"{ql}[conn {c}]", q, cls=cls + ",select")))
+    return out
+
+
+def contexts_stream():
+    cls = "stmt=same_text_other_session_context"
+    out = _same_setup(cls, [0, 1, 2]) + _same_rounds(cls, [0, 1, 2, 0, 2, 1])
+    # one session walking through the contexts, the same text after every USE
+    for lab, use in [("use_schema", "use schema S2"), ("use_schema_qualified", "use schema DB2.S1"), ("use_database", "use database DB1"),
+                     ("use_schema_after_use_database", "use schema S1")]:
+        out.append(C(0, S(lab, use, cls=cls + ",use")))
+        out += [C(0, S(f"{ql}[conn 0 after {lab}]", q, cls=cls + ",select")) for ql, q in _SAME_QUERIES[:2]]
+    return out
+
+
+def instances_stream():
+    cls = "stmt=same_text_other_instance"
+    # connection 3 is a second token of the shared instance: it reads what connection 0 wrote
+    return _same_setup(cls, [0, 1, 2]) + _same_rounds(cls, [0, 1, 2, 3, 1, 0, 2, 3])
 
 
 KIND_STREAMS = {
@@ -679,6 +832,8 @@ def part_a_items(tier):
     items += [("frac", fam, bl) for fam in FRAC_FAMILIES for bl, _ in FRAC_BASES if tier != "quick" or bl in QUICK_BASES]
     items += [("login", lab) for lab, _, _ in LOGINS]
     items += [("instance", k) for k in INSTANCE_KINDS]
+    items += [("retype", a, b) for a, b in RETYPE_PAIRS]
+    items += [("reshape",), ("contexts",), ("instances",)]
     return items
 
 
@@ -833,42 +988,61 @@ def _obs_repr(o):
             None if o["rows"] is None else len(o["rows"]), o["rowcount"], o["desc"], o["desc_err"], o["fetch_err"])
 
 
-def run_stream(stream, acc, rp_base, database=DB, schema=SCHEMA, instance="isolated", setup=None):
-    """Send the same statements to a fresh in-process connection and to a fresh HTTP session; judge each."""
+def run_stream(stream, acc, rp_base, database=DB, schema=SCHEMA, instance="isolated", setup=None, conns=None):
+    """ONE server lifetime: open the connections `conns` = [(instance, database, schema), ...] (default: one) on the
+    HTTP server and their twins on in-process fakes, send every statement of the stream to the connection it names
+    (st['c'], default 0) on both sides, judge each.
+
+    instance: 'shared' (the server's default instance; in-process: one FakeSnow for all 'shared' connections),
+    'isolated' / 'path' (an instance of its own per connection on both sides), or 'isolated:<k>' to let several
+    in-process connections share the k-th private instance (the HTTP side still gets one ':isolated:' login each,
+    so this form is only used with one connection per k)."""
     from fakesnow.instance import FakeSnow
 
+    conns = conns or [(instance, database, schema)]
     reset_server()
     with scratch() as d:
-        if instance == "path":
-            os.makedirs(os.path.join(d, "inproc"))
-            os.makedirs(os.path.join(d, "http"))
-            fs = FakeSnow(db_path=os.path.join(d, "inproc"))
-            db_path = os.path.join(d, "http")
-        else:
-            fs = FakeSnow()
-            db_path = ":isolated:" if instance == "isolated" else None
-        ic = hc = None
+        fss, ics, hcs = {}, [], []
         try:
-            ic = fs.connect(database=database, schema=schema)
-            hc = http_connect(database, schema, db_path)
+            for n, (inst, dbn, sn) in enumerate(conns):
+                if inst == "shared":
+                    key, db_path = "shared", None
+                    if key not in fss:
+                        fss[key] = FakeSnow()
+                elif inst == "isolated":
+                    key, db_path = f"isolated{n}", ":isolated:"
+                    fss[key] = FakeSnow()
+                elif inst == "path":
+                    key = f"path{n}"
+                    os.makedirs(os.path.join(d, f"inproc{n}"))
+                    os.makedirs(os.path.join(d, f"http{n}"))
+                    fss[key] = FakeSnow(db_path=os.path.join(d, f"inproc{n}"))
+                    db_path = os.path.join(d, f"http{n}")
+                else:
+                    raise AssertionError(inst)
+                ics.append(fss[key].connect(database=dbn, schema=sn))
+                hcs.append(http_connect(dbn, sn, db_path))
             st_login = take_statuses()
             if any(s[1] != 200 for s in st_login):
                 acc.violation("C17.no_500", "login", {"statuses": st_login}, rp_base)
             if setup is not None:
-                setup(fs, ic, hc)
+                setup(next(iter(fss.values())), ics[0], hcs[0])
                 take_statuses()
             for n, st in enumerate(stream):
-                oi = observe_stmt(ic, st["sql"])
-                oh = observe_stmt(hc, st["sql"])
+                c = st.get("c", 0)
+                oi = observe_stmt(ics[c], st["sql"])
+                oh = observe_stmt(hcs[c], st["sql"])
                 statuses = take_statuses()
-                acc.obs((st["label"], _obs_repr(oi), _obs_repr(oh), statuses))
-                judge(st, oi, oh, statuses, acc, dict(rp_base, stmt=n, label=st["label"]))
+                acc.obs((st["label"], c, _obs_repr(oi), _obs_repr(oh), statuses))
+                judge(st, oi, oh, statuses, acc, dict(rp_base, stmt=n, label=st["label"], conn=c))
             acc.count("traces")
         finally:
-            with contextlib.suppress(Exception):
-                hc and hc.close()
-            with contextlib.suppress(Exception):
-                fs.duck_conn.close()
+            for hc in hcs:
+                with contextlib.suppress(Exception):
+                    hc.close()
+            for fs in fss.values():
+                with contextlib.suppress(Exception):
+                    fs.duck_conn.close()
             reset_server()  # releases the files of a path-backed instance before the directory goes away
 
 
@@ -921,6 +1095,14 @@ def stream_for(item, tier):
         return K_NOCTX, {"database": db, "schema": sch}
     if kind == "instance":
         return K_DML, {"instance": item[1]}
+    if kind == "retype":
+        return retype_stream(item[1], item[2], tier), {}
+    if kind == "reshape":
+        return K_RESHAPE, {}
+    if kind == "contexts":
+        return contexts_stream(), {"conns": CONTEXT_CONNS}  # every login creates its database and schema if missing
+    if kind == "instances":
+        return instances_stream(), {"conns": INSTANCE_CONNS}
     raise AssertionError(item)
 
 
@@ -938,6 +1120,8 @@ def run_group(item, acc: core.Acc, tier):
 B_STMTS = {"quick": ("put", "sel", "use2", "set", "getv"), "thorough": ("put", "sel", "use2", "use1", "set", "getv")}
 B_INTRUDER = {"quick": ("put", "set"), "thorough": ("put", "use2", "set")}
 B_AUTH = {"quick": ("missing", "bogus", "truncated"), "thorough": M.AUTH_VARIANTS}
+# quick: not the full product auth variant x intruder statement, but each variant once and each statement at least once
+B_NOAUTH_QUICK = (("missing", "put"), ("bogus", "set"), ("truncated", "put"))
 B_DEPTH = {"quick": 4, "thorough": 6}
 
 
@@ -948,6 +1132,7 @@ class Live:
         self.d = d
         self.conns = []
         self.n_path = 0
+        self.shared_ready = False
 
     def close(self):
         for c in self.conns:
@@ -1000,10 +1185,13 @@ def apply_real(live, op):
         except Exception as e:  # noqa: BLE001
             return ("err", _exc(e)), take_statuses()
         live.conns.append(c)
-        # harness set-up belonging to the login operation: the second schema of the alphabet
-        o = observe_stmt(c, "create schema if not exists S2")
-        if o["exec"] != "ok":
-            return ("err", o["err"]), take_statuses()
+        # harness set-up belonging to the login operation: the second schema of the alphabet (once per instance: the
+        # first shared login creates it for all shared logins)
+        if kind != "shared" or not live.shared_ready:
+            o = observe_stmt(c, "create schema if not exists S2")
+            if o["exec"] != "ok":
+                return ("err", o["err"]), take_statuses()
+            live.shared_ready = live.shared_ready or kind == "shared"
         return ("login",), take_statuses()
     if op[0] == "noauth":
         _, variant, s = op
@@ -1011,10 +1199,12 @@ def apply_real(live, op):
         status, body = raw_query(M.auth_header(variant, tok), M.INTRUDER_STMTS[s])
         return ("http", status, None if body is None else (body.get("code"), body.get("success"))), take_statuses()
     _, i, s = op
-    o = observe_stmt(live.conns[i], M.STMTS[s].format(i=i))
+    o = observe_stmt(live.conns[i], M.stmt_sql(s, i))
     st = take_statuses()
     if o["exec"] == "err":
         return ("err", o["err"]), st
+    if o["fetch_err"] is not None:
+        return ("fetch_raises", o["fetch_err"]), st  # execute succeeded, fetchall() raised: never an expected answer
     return ("ok", o["rows"]), st
 
 
@@ -1048,20 +1238,9 @@ def check_transition(model_before, model_after, op, exp, got, statuses, gt_befor
             in_sync = False
         acc.nontrivial(("401", op, model_before.key()))
     elif not s500:
-        bad = None
-        if exp[0] == "status":
-            if got[0] != "ok":
-                bad = "expected success"
-        elif exp[0] == "rows":
+        if exp[0] in ("rows", "err"):
             acc.nontrivial((op, model_before.key()))
-            if got[0] != "ok" or M.cmp_rows(exp[1], got[1], True):
-                bad = "expected rows"
-        elif exp[0] == "err":
-            acc.nontrivial((op, model_before.key()))
-            if got[0] != "err" or got[1][0] != "snowflake.connector.errors.ProgrammingError":
-                bad = "expected ProgrammingError"
-            elif exp[1] is not None and (got[1][1], got[1][2]) != (exp[1], exp[2]):
-                bad = "expected errno/sqlstate"
+        bad = _answer_mismatch(exp, got)
         acc.member("C17.s.answer", f"op={opk},expected={exp[0]}", bool(bad))
         if bad:
             acc.violation("C17.s.answer", f"op={opk},expected={exp[0]}", {"op": op, "why": bad, "expected": exp, "observed": got}, rp)
@@ -1083,7 +1262,7 @@ def check_transition(model_before, model_after, op, exp, got, statuses, gt_befor
         if not (ctx_ok and var_ok):
             acc.violation("C17.s.context", f"op={opk},token={who}", {"op": op, "token": i, "expected": want, "observed": [g["ctx"], g["vars"]]}, rp)
             in_sync = False
-        marks_want = {s: ("(%d,)" % w,) for s, w in model_after.expected_marks(i).items() if w is not None}
+        marks_want = {s: (repr((M.MARK_VALUES[w],)),) for s, w in model_after.expected_marks(i).items() if w is not None}
         data_ok = g["marks"] == marks_want
         same_inst = model_after.tokens[i]["inst"] == (model_after.tokens[op[1]]["inst"] if op[0] == "query" else None)
         dk = f"op={opk},token={'self' if who == 'self' else ('same_instance' if same_inst else 'other_instance')}"
@@ -1092,6 +1271,46 @@ def check_transition(model_before, model_after, op, exp, got, statuses, gt_befor
             acc.violation("C17.s.data", dk, {"op": op, "token": i, "expected": marks_want, "observed": g["marks"]}, rp)
             in_sync = False
     return in_sync
+
+
+def read_battery(live, model, acc, rp, judge_it):
+    """Every token sends the token-independent read texts (SELECT WHO FROM MARK, SELECT $V) on the LIVE state.  Run
+    before (judge_it=False: these transitions are judged where they are explored as operations) and after
+    (judge_it=True) every state-changing operation, so that each identical text is answered on both sides of every
+    change within one server lifetime - by the sender of the change and by every other token."""
+    for i in range(len(model.tokens)):
+        for s_ in M.READ_STMTS:
+            op = ("query", i, s_)
+            exp = model.copy().step(op)
+            got, statuses = apply_real(live, op)
+            acc.obs(("battery", judge_it, op, _got_repr(got), statuses))
+            if not judge_it:
+                continue
+            acc.count("evaluations")
+            acc.count("reads_after_change")
+            s500 = [x for x in statuses if x[1] >= 500]
+            acc.member("C17.s.no_500", f"op=query:{s_}", bool(s500))
+            if s500:
+                acc.violation("C17.s.no_500", f"op=query:{s_}", {"op": op, "statuses": statuses, "observed": got, "after": rp.get("op")}, rp)
+                continue
+            bad = _answer_mismatch(exp, got)
+            acc.member("C17.s.answer", f"op=query:{s_},expected={exp[0]}", bool(bad))
+            if bad:
+                acc.violation("C17.s.answer", f"op=query:{s_},expected={exp[0]}",
+                              {"op": op, "why": bad, "expected": exp, "observed": got, "read_after": rp.get("op")}, dict(rp, read=op))
+
+
+def _answer_mismatch(exp, got):
+    if exp[0] == "status":
+        return None if got[0] == "ok" else "expected success"
+    if exp[0] == "rows":
+        return None if got[0] == "ok" and not M.cmp_rows(exp[1], got[1], True) else "expected rows"
+    if exp[0] == "err":
+        if got[0] != "err" or got[1][0] != "snowflake.connector.errors.ProgrammingError":
+            return "expected ProgrammingError"
+        if exp[1] is not None and (got[1][1], got[1][2]) != (exp[1], exp[2]):
+            return "expected errno/sqlstate"
+    return None
 
 
 def _vars_match(stored, want) -> bool:
@@ -1117,62 +1336,76 @@ def replay_history(hist, d):
     return live, model
 
 
+def ops_of(model, tier):
+    """-> (stay, move): the enabled operations of a model state, split by whether the model predicts a state change."""
+    ops = model.enabled(B_STMTS[tier], B_INTRUDER[tier], B_AUTH[tier])
+    if tier == "quick":
+        ops = [op for op in ops if op[0] != "noauth" or (op[1], op[2]) in B_NOAUTH_QUICK]
+    return [op for op in ops if not model.changes_state(op)], [op for op in ops if model.changes_state(op)]
+
+
+def work_items(key_repr, hist, tier):
+    """The work of expanding one state, cut into independent pieces (each replays the history on a fresh server):
+    one for all operations that leave the state alone, one per state-changing operation."""
+    model = M.SessionModel()
+    for op in hist:
+        model.step(_tup(op))
+    _stay, move = ops_of(model, tier)
+    return [(key_repr, hist, ["stay"])] + [(key_repr, hist, ["move", list(op)]) for op in move]
+
+
 def expand(item, acc: core.Acc, tier):
-    """item = (state key repr, history).  Apply every enabled operation to the state reached by history; return
-    successors [(key, history')]."""
-    _key, hist = item
+    """item = (state key repr, history, part).  part ['stay']: apply every enabled operation that leaves the state
+    alone, one after another on the live state.  part ['move', op]: send the read texts from every token, apply the
+    state-changing op, send the read texts again.  Returns successors [(key, history', in_sync)]."""
+    _key, hist, part = item
     hist = [_tup(o) for o in hist]
     succ = []
     with scratch() as d:
         live, model = replay_history(hist, d)
         acc.count("traces")
         try:
-            ops = model.enabled(B_STMTS[tier], B_INTRUDER[tier], B_AUTH[tier])
-            stay = [op for op in ops if not model.changes_state(op)]
-            move = [op for op in ops if model.changes_state(op)]
+            stay, move = ops_of(model, tier)
             gt = ground_truth(live)
-            # (1) operations predicted to leave the state alone: one after another on the live state
-            for op in stay:
+            if part[0] == "stay":
+                for op in stay:
+                    m_after = model.copy()
+                    exp = m_after.step(op)
+                    got, statuses = apply_real(live, op)
+                    gt_after = ground_truth(live)
+                    acc.obs((hist, op, _got_repr(got), statuses, _gt_repr(gt_after)))
+                    acc.outcome((op[0], op[-1], got[0], statuses[-1][1] if statuses else None))
+                    rp = {"part": "b", "history": hist, "op": op, "tier": tier}
+                    ok = check_transition(model, m_after, op, exp, got, statuses, gt, gt_after, acc, rp)
+                    unchanged = _gt_repr(gt) == _gt_repr(gt_after)
+                    if not unchanged and ok:
+                        # the digest moved although model and reported context agree: something else was touched
+                        acc.violation("C17.s.data", f"op={op[0]}:{op[-1]},digest_moved", {"op": op, "before": _gt_brief(gt[0]), "after": _gt_brief(gt_after[0])}, rp)
+                    if not unchanged:
+                        live.close()
+                        live, model = replay_history(hist, d)
+                        acc.count("traces")
+                        gt = ground_truth(live)
+            else:
+                op = _tup(part[1])
+                if op not in move:
+                    raise core.HarnessError(f"{op} is not a state-changing operation after {hist}")
                 m_after = model.copy()
                 exp = m_after.step(op)
+                rp = {"part": "b", "history": hist, "op": op, "tier": tier}
+                read_battery(live, model, acc, rp, judge_it=False)
                 got, statuses = apply_real(live, op)
                 gt_after = ground_truth(live)
                 acc.obs((hist, op, _got_repr(got), statuses, _gt_repr(gt_after)))
                 acc.outcome((op[0], op[-1], got[0], statuses[-1][1] if statuses else None))
-                rp = {"part": "b", "history": hist, "op": op, "tier": tier}
                 ok = check_transition(model, m_after, op, exp, got, statuses, gt, gt_after, acc, rp)
-                unchanged = _gt_repr(gt) == _gt_repr(gt_after)
-                if not unchanged and ok:
-                    # the digest moved although model and reported context agree: something else was touched
-                    acc.violation("C17.s.data", f"op={op[0]}:{op[-1]},digest_moved", {"op": op, "before": _gt_brief(gt[0]), "after": _gt_brief(gt_after[0])}, rp)
-                if not unchanged:
-                    live.close()
-                    live, model = replay_history(hist, d)
-                    acc.count("traces")
-                    gt = ground_truth(live)
-                succ.append((m_after.key(), hist + [op], False))
-            # (2) state-changing operations: each on its own replay
-            first = True
-            for op in move:
-                if not first:
-                    live.close()
-                    live, model = replay_history(hist, d)
-                    acc.count("traces")
-                    gt = ground_truth(live)
-                first = False
-                m_after = model.copy()
-                exp = m_after.step(op)
-                got, statuses = apply_real(live, op)
-                gt_after = ground_truth(live)
-                acc.obs((hist, op, _got_repr(got), statuses, _gt_repr(gt_after)))
-                acc.outcome((op[0], op[-1], got[0], statuses[-1][1] if statuses else None))
-                rp = {"part": "b", "history": hist, "op": op, "tier": tier}
-                ok = check_transition(model, m_after, op, exp, got, statuses, gt, gt_after, acc, rp)
+                if ok:
+                    read_battery(live, m_after, acc, rp, judge_it=True)
                 succ.append((m_after.key(), hist + [op], bool(ok)))
         finally:
             live.close()
             reset_server()
-    acc.sample({"part": "b", "history": hist, "operations_applied": len(succ)})
+    acc.sample({"part": "b", "history": hist, "piece": part})
     return succ
 
 
@@ -1225,7 +1458,8 @@ def run(ctx: core.Ctx):
     frontier = [(repr(m0.key()), [])]
     depth = 0
     while frontier and depth < depth_bound:
-        res = ctx.pmap(expand, frontier, chunk=1 if len(frontier) < 200 else None, recheck=(depth == 1))
+        pieces = [w for key_repr, hist in frontier for w in work_items(key_repr, hist, tier)]
+        res = ctx.pmap(expand, pieces, chunk=1 if len(pieces) < 2000 else None, recheck=(depth == 1))
         cands = []
         for _item, succ in res:
             for key, hist, ok in succ:
@@ -1253,8 +1487,8 @@ def run(ctx: core.Ctx):
         "rowcounts": ROWCOUNTS_QUICK if tier == "quick" else ROWCOUNTS_THOROUGH,
         "logins": [lab for lab, _, _ in LOGINS],
         "session_stmts": list(B_STMTS[tier]),
-        "intruder_stmts": list(B_INTRUDER[tier]),
-        "auth_variants": list(B_AUTH[tier]),
+        "unauthorized_requests": [list(x) for x in B_NOAUTH_QUICK] if tier == "quick" else [[v, st] for v in B_AUTH[tier] for st in B_INTRUDER[tier]],
+        "same_text_type_pairs": len(RETYPE_PAIRS),
     }
     # exhaustive w.r.t. the stated finite space: all streams, and all histories up to the depth bound modulo state equality
     ctx.exhaustive = True
@@ -1295,12 +1529,16 @@ def replay(payload):
                 gt = ground_truth(live)
                 m_after = model.copy()
                 exp = m_after.step(op)
+                if model.changes_state(op):
+                    read_battery(live, model, acc, r, judge_it=False)
                 got, statuses = apply_real(live, op)
                 gt_after = ground_truth(live)
                 print("expected:", exp)
                 print("observed:", got, "statuses:", statuses)
                 print("ground truth after:", _gt_brief(gt_after[0]))
-                check_transition(model, m_after, op, exp, got, statuses, gt, gt_after, acc, r)
+                ok = check_transition(model, m_after, op, exp, got, statuses, gt, gt_after, acc, r)
+                if ok and model.changes_state(op):
+                    read_battery(live, m_after, acc, r, judge_it=True)
             finally:
                 live.close()
                 reset_server()
